@@ -12,7 +12,25 @@ def main():
         return setup.main()
     mod = importlib.import_module("dv.%s" % what.lower())
     from dv import core
-    return core.main_wrapper(mod.run)
+    try:
+        return core.main_wrapper(mod.run)
+    except Exception as e:      # noqa: an uncaught exception in a harness must still follow the protocol
+        import hashlib
+        import json
+        import os
+        import traceback
+        tb = traceback.format_exc()
+        pid = what.upper()
+        d = os.path.join(core.ROOT, "replay", pid)
+        os.makedirs(d, exist_ok=True)
+        path = os.path.join(d, "crash_%s.json" % hashlib.sha1(tb.encode()).hexdigest()[:10])
+        with open(path, "w") as f:
+            json.dump({"property": pid, "what": "the check itself stopped with %s: %s - the property is no longer shown to "
+                       "hold (the implementation did something the harness has no observation for)" % (type(e).__name__, e),
+                       "no_failing_input_found": True, "traceback": tb[-4000:]}, f, indent=1)
+        sys.stderr.write(tb)
+        print("VIOLATION property=%s replay=%s no-failing-input-found" % (pid, path))
+        return 1
 
 
 if __name__ == "__main__":
